@@ -524,5 +524,8 @@ func heapTypeKey(t types.Type) string {
 	if _, ok := t.Underlying().(*types.Interface); ok {
 		return "Iface"
 	}
+	if b, ok := t.(*types.Basic); ok && int(b.Kind()) < len(types.Typ) && types.Typ[b.Kind()] != nil {
+		return types.Typ[b.Kind()].Name() // byte -> uint8, rune -> int32
+	}
 	return typeStr(t)
 }
